@@ -354,15 +354,39 @@ def local_before_def(ctx, modules=None):
              '(UnboundLocalError)')
     repo = ctx.repo
     n = 0
-    for f in repo.all_functions():
-        short = f.module.name.split('.')[-1]
-        if modules and short not in modules:
+
+    class _Raw:
+        pass
+    raw_functions = []
+    for mod in repo.modules.values():
+        short = mod.name.split('.')[-1]
+        if (modules and short not in modules) or '.tests' in mod.name:
             continue
-        if '.tests' in f.module.name:
+        # textual order is a property of the FILE: the program model's tree has helper code
+        # inlined with borrowed positions, so this rule reads the source as written
+        try:
+            raw = ast.parse(mod.source)
+        except SyntaxError:
             continue
+        infos = [fi for fi in repo.all_functions() if fi.module is mod]
+
+        def walk(node, prefix):
+            for ch in ast.iter_child_nodes(node):
+                if isinstance(ch, (ast.FunctionDef, ast.AsyncFunctionDef)):
+                    r_ = _Raw()
+                    r_.node, r_.qualname = ch, prefix + ch.name
+                    r_.info = next((fi for fi in infos if fi.qualname == r_.qualname), None)
+                    raw_functions.append(r_)
+                    walk(ch, prefix + ch.name + '.')
+                elif isinstance(ch, ast.ClassDef):
+                    walk(ch, prefix + ch.name + '.')
+                else:
+                    walk(ch, prefix)
+        walk(raw, '')
+    for f in raw_functions:
         n += 1
-        params = set(f.params) | set(getattr(f, 'kwonly', []))
         a_ = f.node.args
+        params = {x.arg for x in a_.posonlyargs + a_.args + a_.kwonlyargs}
         for x in (a_.vararg, a_.kwarg):
             if x is not None:
                 params.add(x.arg)
@@ -418,7 +442,7 @@ def local_before_def(ctx, modules=None):
             sp = first_store[nm][0]
             if lp < sp:
                 ctx.ob('LOCAL-ORDER', False, None, "local '%s' is bound before it is read" % nm,
-                       f=f, node=lnode, key='%s:%s' % (f.qualname, nm),
+                       f=f.info, node=lnode, key='%s:%s' % (f.qualname, nm),
                        why="%s reads the local '%s' on line %d, but the first statement that binds "
                            'it is on line %d: UnboundLocalError when the reading statement runs '
                            '(on the first iteration, if both sit in one loop body)'
